@@ -55,6 +55,7 @@ type script struct {
 	Release string // what a blocked reader returns once Close has been called ("" = "a")
 	Retain  bool   // the consumer keeps every sequence and never hands it back
 	Delayed bool   // the consumer hands a sequence back only after receiving the next one
+	Mixed   int    // >0: the consumer treats the sequences in rotation (offset Mixed-1): handed back at once / one delivery late / kept
 }
 
 func (s *script) release() string {
@@ -81,6 +82,9 @@ func (s script) String() string {
 	}
 	if s.Delayed {
 		b.WriteString(" +delayed")
+	}
+	if s.Mixed > 0 {
+		fmt.Fprintf(&b, " +mixed(%d)", s.Mixed-1)
 	}
 	return b.String()
 }
@@ -298,6 +302,7 @@ func execute(sc *script, prefix []int) (*vsched.Result, *outcome) {
 			}
 		}
 		var prev ansi.Sequence
+		lateIdx := -1
 		n := 0
 		for {
 			seq, ok := <-vsched.Pre(p.Next(), vsched.Recv)
@@ -325,6 +330,25 @@ func execute(sc *script, prefix []int) (*vsched.Result, *outcome) {
 				o.items = append(o.items, parseref.Render(seq))
 			}
 			switch {
+			case sc.Mixed > 0:
+				if lateIdx >= 0 {
+					k := retained[lateIdx]
+					if got := parseref.Render(k.seq); got != k.copy && o.modified == "" {
+						o.modified = fmt.Sprintf("delivered %s, later reads %s", k.copy, got)
+					}
+					p.Finish(k.seq)
+					retained[lateIdx].seq = nil
+					lateIdx = -1
+				}
+				switch (n - 1 + sc.Mixed - 1) % 3 {
+				case 0:
+					p.Finish(seq)
+				case 1:
+					retained = append(retained, kept{seq, parseref.Render(seq)})
+					lateIdx = len(retained) - 1
+				default:
+					retained = append(retained, kept{seq, parseref.Render(seq)})
+				}
 			case sc.Retain:
 				retained = append(retained, kept{seq, parseref.Render(seq)})
 			case sc.Delayed:
@@ -572,6 +596,31 @@ func ownershipScripts(n int, each func(sc script)) {
 	}
 }
 
+// pool histories: every sequence of up to 6 CSI sequences with 0-3 parameters (values that tell the positions apart),
+// with a consumer that treats them in rotation - handed back at once, handed back one delivery late, kept: storage
+// that went back to the parser's pools and out again must never belong to two sequences at a time
+func poolScripts(each func(sc script)) {
+	var rec func(s string, k int)
+	rec = func(s string, k int) {
+		if k > 0 {
+			for m := 1; m <= 3; m++ {
+				each(script{Chunks: []chunk{{s, short}}, End: endEOF, Mixed: m})
+			}
+		}
+		if k == 6 {
+			return
+		}
+		for np := 0; np <= 3; np++ {
+			var ps []string
+			for j := 0; j < np; j++ {
+				ps = append(ps, fmt.Sprint(10*(k+1)+j))
+			}
+			rec(s+"\x1b["+strings.Join(ps, ";")+string(rune('A'+np)), k+1)
+		}
+	}
+	rec("", 0)
+}
+
 // states: the Escape decision taken from every state of the automaton: a prefix that leaves the
 // parser in that state, an ESC, then silence of each length, then each kind of continuation
 func stateScripts(each func(sc script)) {
@@ -756,6 +805,7 @@ func main() {
 			stateScripts(each(1, 0))
 			bulkScripts(each(0, 0))
 			ownershipScripts(r.Pick(3, 4), each(1, 0))
+			poolScripts(each(0, 0))
 		case "depth":
 			depthScripts(each(depthBound, int64(r.Pick(400000, 4000000))))
 		}
@@ -769,7 +819,7 @@ func main() {
 	}
 	r.Finish(explore.Coverage{
 		States: -1, Transitions: r.Get("points"), Traces: ex, Evaluations: ex,
-		Rule:       fmt.Sprintf("stateless exploration of thread schedules of the real ansi.Parser under the controlled scheduler (scheduling points: every channel operation, select, close, mutex operation, thread start, timer firing, reader wait). Breadth: every string of up to %d symbols over a 12-symbol alphabet, as one chunk and cut in two at every position with short / boundary / long arrival gaps, ending in EOF or a read error, all schedules without preemption (non-preemptive switches are free); byte-level chunkings of multi-byte input with <=1 preemption; bulk: OSC / DCS / APC / SOS strings of 70000 runes with each terminator and cut off by the end of the input; states: 27 prefixes that leave the automaton in each of its states (incl. every string state with and without content, and just after ST / BEL / CAN) + ESC + silence of each length + 7 continuations, <=1 preemption; ownership: every sequence of up to %d complete control sequences out of 19 (each dispatch path that hands storage to the consumer) with a consumer that retains everything or hands back one late, <=1 preemption. Depth: 14 input bodies x end kinds x consumer modes (hand back at once / retain everything / hand back one late) x Close from a second thread with a reader that returns afterwards, all schedules with <=%d deviations (preemption, or timer fired while a thread could run). Oracle per execution: no panic, no hang, no goroutine blocked at the end, exactly one EOF marker as last item, channel closed, WaitClose returns, retained sequences unchanged, item list equal to (prefix of, with Close) a list admitted by the reference automaton for the gap pattern. distinct = (script, bound) pairs", breadthN, r.Pick(3, 4), depthBound),
+		Rule:       fmt.Sprintf("stateless exploration of thread schedules of the real ansi.Parser under the controlled scheduler (scheduling points: every channel operation, select, close, mutex operation, thread start, timer firing, reader wait). Breadth: every string of up to %d symbols over a 12-symbol alphabet, as one chunk and cut in two at every position with short / boundary / long arrival gaps, ending in EOF or a read error, all schedules without preemption (non-preemptive switches are free); byte-level chunkings of multi-byte input with <=1 preemption; bulk: OSC / DCS / APC / SOS strings of 70000 runes with each terminator and cut off by the end of the input; states: 27 prefixes that leave the automaton in each of its states (incl. every string state with and without content, and just after ST / BEL / CAN) + ESC + silence of each length + 7 continuations, <=1 preemption; ownership: every sequence of up to %d complete control sequences out of 19 (each dispatch path that hands storage to the consumer) with a consumer that retains everything or hands back one late, <=1 preemption; pool histories: every sequence of up to 6 CSI sequences with 0-3 parameters with a consumer that in rotation hands back at once / one delivery late / keeps, without preemption. Depth: 14 input bodies x end kinds x consumer modes (hand back at once / retain everything / hand back one late) x Close from a second thread with a reader that returns afterwards, all schedules with <=%d deviations (preemption, or timer fired while a thread could run). Oracle per execution: no panic, no hang, no goroutine blocked at the end, exactly one EOF marker as last item, channel closed, WaitClose returns, retained sequences unchanged, item list equal to (prefix of, with Close) a list admitted by the reference automaton for the gap pattern. distinct = (script, bound) pairs", breadthN, r.Pick(3, 4), depthBound),
 		Exhaustive: r.Get("scripts_capped") == 0,
 		Bounds: map[string]any{"breadth_symbols": breadthN, "deviation_bound": depthBound, "scripts": r.Get("scripts"), "scripts_capped": r.Get("scripts_capped"),
 			"scripts_with_several_outcomes": r.Get("scripts_with_several_outcomes"), "step_limit": 4000},
